@@ -68,7 +68,7 @@ func compose(stream []*model.Rec, comp uint64) [][]*model.Rec {
 }
 
 type c15Fault struct {
-	kind string // "", "first-not-soa", "rcode", "id", "eof", "alter", "reorder", "unsign", "wrongkey", "extra-after-end"
+	kind string // "", "first-not-soa", "rcode", "id", "idwire", "eof", "alter", "reorder", "unsign", "wrongkey", "emptymac", "extra-after-end"
 	at   int    // envelope index (or octet offset for eof)
 }
 
@@ -175,6 +175,13 @@ func c15Run(w *core.W, q *dns.Msg, envs [][]*model.Rec, tsig bool, f c15Fault, r
 				_ = mac
 			}
 			prevMAC = mac
+		}
+		if f.kind == "idwire" && i == f.at {
+			// the ID in the header is changed on the wire, after signing: the TSIG (whose original ID
+			// still equals the query's) verifies, the envelope still does not answer this query
+			wire = append([]byte(nil), wire...)
+			wire[0] ^= 0x55
+			wire[1] ^= 0x55
 		}
 		if f.kind == "alter" && i == f.at {
 			// flip one octet inside the answer section (after the header and question)
@@ -492,7 +499,7 @@ func c15Case(w *core.W, j int) {
 	// faults
 	faults := []string{"first-not-soa", "rcode", "id"}
 	if tsig {
-		faults = append(faults, "alter", "reorder", "unsign", "wrongkey", "emptymac")
+		faults = append(faults, "alter", "reorder", "unsign", "wrongkey", "emptymac", "idwire")
 	}
 	for _, c := range []uint64{comps[0], comps[len(comps)-1], comps[len(comps)/2]} {
 		ne := len(compose(s.recs, c))
